@@ -16,8 +16,8 @@ THEOREMS = ['C09_painted_not_replaced', 'C09_replacement_painted', 'C09_funlike_
             'C09_objlike_terminates', 'C09_nonvacuous']
 MODELRUN = os.path.join(VERIF, 'ocaml/modelrun')
 
-OBJ = ['O1', 'O2', 'O3', 'EMPTY']
-FUN = ['F1', 'F2', 'F3', 'F4', 'G']
+OBJ = ['O1', 'O12', 'O', 'EMPTY']          # names that are proper prefixes of each other: a table keyed by less than the whole name confuses them
+FUN = ['F1', 'F12', 'F', 'F4', 'G']
 PLAIN = ['a', 'b', 'c', 'x', 'y', '1', '2', '42', '+', '-', '*', ';', '[', ']', '"s"', "'c'", '==', '<', '0x1f', '1.5',
          "L'\\n'", "u'\\\\'", '"a\\"b"', 'L"q\\\\"', "'\\''", 'u8"\\n"', "U'\\x41'", "'\\0'", '"\\\\"']
 
@@ -71,7 +71,7 @@ class Gen:
             return '#define %s %s' % (n, ' '.join(toks))
         n = rng.choice(FUN)
         np = rng.randint(0, 3)
-        params = ['p', 'q', 'r'][:np]
+        params = (['p', 'q', 'r'] if rng.random() < 0.5 else ['p', 'pq', 'pqr'])[:np]
         va = None
         r = rng.random()
         plist = list(params)
